@@ -6,6 +6,7 @@ CONSTANTS
   MaxUrl = 4
   ReuseOnLookup = FALSE
   FabricatedNorm = FALSE
+  WildHostCheck = TRUE
   KF_Shadow = TRUE
   Source = "picks"
   NChunks = 64
